@@ -42,4 +42,149 @@ __CPROVER_ensures(POST_UPDTOK_EXT(__CPROVER_return_value, pdu, len))
 __CPROVER_ensures(POST_UPDTOK_REFUSED(__CPROVER_return_value, pdu, __CPROVER_old(pdu->used_size), __CPROVER_old(pdu->e_token_length), \
                                     G_old_doff, __CPROVER_old(pdu->alloc_size)))
 ;
+
+/* ---- header framing (C01 P2, C03 P5, C05) */
+#include "spec/tcp_len.h"
+size_t coap_pdu_parse_header_size_contract(coap_proto_t proto, const uint8_t *data)
+__CPROVER_requires(__CPROVER_r_ok(data, 1))
+__CPROVER_assigns()
+__CPROVER_ensures(__CPROVER_return_value == PROTO_HDRSZ(proto, data))
+;
+/* total size of token (incl. extension bytes) + options + payload announced by a stream header.
+ * The caller passes exactly the fixed header plus the extended-token-length bytes. */
+#define POST_PARSE_SIZE(ret, proto, d) \
+  ((ret) == (IS_TCPTLS(proto) ? TCP_LENGTH(d) + E_TOKLEN(TKL_NIB(d), (d) + TCP_HDRSZ(d)) : 0u))
+size_t coap_pdu_parse_size_contract(coap_proto_t proto, const uint8_t *data, size_t length)
+__CPROVER_requires(IS_TCPTLS(proto) || IS_WS(proto))
+__CPROVER_requires(length >= 1 && __CPROVER_r_ok(data, length) && length >= PROTO_HDRSZ(proto, data) + TKL_EXT(TKL_NIB(data)))
+__CPROVER_assigns()
+__CPROVER_ensures(POST_PARSE_SIZE(__CPROVER_return_value, proto, data))
+;
+
+/* coap_pdu_encode_header: h = returned header size, hdr = token - h */
+#define TKN(p) TKLNIB((p)->actual_token.length)
+#define LEN_OPTS(p) ((p)->used_size - (p)->e_token_length)
+#define POST_ENC_HDR_UDP(ret, p, old_type) \
+  ((ret) == 4 && (p)->hdr_size == 4 && (p)->token[-4] == ((1u << 6) | ((uint32_t)(old_type) << 4) | TKN(p)) && \
+   (p)->token[-3] == (p)->code && (p)->token[-2] == (((p)->mid >> 8) & 0xff) && (p)->token[-1] == ((p)->mid & 0xff))
+#define POST_ENC_HDR_STREAM(ret, p, L) \
+  ((L) < 13u ? ((ret) == 2 && (p)->token[-2] == (((L) << 4) | TKN(p)) && (p)->token[-1] == (p)->code) : \
+   (L) < 269u ? ((ret) == 3 && (p)->token[-3] == ((13u << 4) | TKN(p)) && (p)->token[-2] == (L) - 13u && (p)->token[-1] == (p)->code) : \
+   (L) < 65805u ? ((ret) == 4 && (p)->token[-4] == ((14u << 4) | TKN(p)) && (p)->token[-3] == ((((L) - 269u) >> 8) & 0xff) && \
+                   (p)->token[-2] == (((L) - 269u) & 0xff) && (p)->token[-1] == (p)->code) : \
+   ((ret) == 6 && (p)->token[-6] == ((15u << 4) | TKN(p)) && (p)->token[-5] == ((((L) - 65805u) >> 24) & 0xff) && \
+    (p)->token[-4] == ((((L) - 65805u) >> 16) & 0xff) && (p)->token[-3] == ((((L) - 65805u) >> 8) & 0xff) && \
+    (p)->token[-2] == (((L) - 65805u) & 0xff) && (p)->token[-1] == (p)->code))
+#define POST_ENC_HDR(ret, p, proto, old_type, old_hdr) \
+  (IS_DGRAM(proto) ? POST_ENC_HDR_UDP(ret, p, old_type) : \
+   IS_TCPTLS(proto) ? (POST_ENC_HDR_STREAM(ret, p, LEN_OPTS(p)) && (p)->hdr_size == (ret) && (p)->type == COAP_MESSAGE_CON) : \
+   IS_WS(proto) ? (POST_ENC_HDR_STREAM(ret, p, 0u) && (p)->hdr_size == (ret) && (p)->type == COAP_MESSAGE_CON) : \
+   ((ret) == (old_hdr) && (p)->hdr_size == (old_hdr)) /* no such transport: nothing encoded, header size unchanged */)
+size_t coap_pdu_encode_header_contract(coap_pdu_t *pdu, coap_proto_t proto)
+__CPROVER_requires(PDU_WF_MEM(pdu) && PDU_WF_SCALAR(pdu) && pdu->max_hdr_size == 6 && pdu->type <= 3)
+__CPROVER_assigns(pdu->hdr_size, pdu->type, __CPROVER_object_upto(pdu->token - pdu->max_hdr_size, pdu->max_hdr_size))
+__CPROVER_ensures(POST_ENC_HDR(__CPROVER_return_value, pdu, proto, __CPROVER_old(pdu->type), __CPROVER_old(pdu->hdr_size)))
+;
+
+/* coap_pdu_parse_header (C03 P3): hdr = token - hdr_size holds the received fixed header */
+#define HDRP(p) ((p)->token - (p)->hdr_size)
+#define PH_TOK_OK(p) (TKL_NIB(HDRP(p)) != 15u && E_TOKLEN(TKL_NIB(HDRP(p)), (p)->token) <= (p)->alloc_size)
+#define POST_PARSE_HDR_ACCEPT(ret, p, proto) \
+  (((ret) != 0) == ((IS_DGRAM(proto) ? (HDRP(p)[0] >> 6) == 1u : (IS_TCPTLS(proto) || IS_WS(proto))) && PH_TOK_OK(p)))
+#define POST_PARSE_HDR_FIELDS(ret, p, proto) \
+  ((ret) == 0 || ( \
+    (IS_DGRAM(proto) ? ((p)->type == ((HDRP(p)[0] >> 4) & 3u) && (p)->code == HDRP(p)[1] && (p)->mid == ((HDRP(p)[2] << 8) | HDRP(p)[3])) \
+                     : ((p)->type == COAP_MESSAGE_CON && (p)->code == HDRP(p)[(p)->hdr_size - 1] && (p)->mid == 0)) && \
+    (p)->e_token_length == E_TOKLEN(TKL_NIB(HDRP(p)), (p)->token) && \
+    (p)->actual_token.length == TOKLEN(TKL_NIB(HDRP(p)), (p)->token) && \
+    (p)->actual_token.s == (p)->token + TKL_EXT(TKL_NIB(HDRP(p)))))
+#define POST_PARSE_HDR_REJECT(ret, p) ((ret) != 0 || (IS_DGRAM(proto) && (HDRP(p)[0] >> 6) != 1u) || !(IS_DGRAM(proto) || IS_TCPTLS(proto) || IS_WS(proto)) || ((p)->e_token_length == 0 && (p)->actual_token.length == 0))
+int coap_pdu_parse_header_contract(coap_pdu_t *pdu, coap_proto_t proto)
+__CPROVER_requires(PDU_WF_MEM(pdu) && pdu->max_hdr_size >= 4 && pdu->max_hdr_size <= 6 && pdu->hdr_size <= pdu->max_hdr_size)
+__CPROVER_requires(pdu->hdr_size >= 2 && (pdu->hdr_size == PROTO_HDRSZ(proto, HDRP(pdu)) || !(IS_DGRAM(proto) || IS_TCPTLS(proto) || IS_WS(proto))))
+__CPROVER_requires(pdu->used_size <= pdu->alloc_size)
+/* the extended-token-length bytes lie inside the received message */
+__CPROVER_requires(TKL_EXT(TKL_NIB(HDRP(pdu))) <= pdu->used_size)
+__CPROVER_assigns(pdu->type, pdu->code, pdu->mid, pdu->e_token_length, pdu->actual_token)
+__CPROVER_ensures(POST_PARSE_HDR_ACCEPT(__CPROVER_return_value, pdu, proto))
+__CPROVER_ensures(POST_PARSE_HDR_FIELDS(__CPROVER_return_value, pdu, proto))
+;
+
+/* ---- next_option_safe (C03 P2): one parser step; rejects iff the option is malformed or the running
+ * option number would exceed 65535.  old_* = values at entry. */
+#define POST_NOS_ACCEPT(ret, old_opt, old_len, old_max) \
+  (((ret) != 0) == (WELLFORMED(old_opt, old_len) && (uint32_t)(old_max) + DELTA(old_opt) <= 65535u))
+#define POST_NOS_STEP(ret, optp, lengthp, maxp, old_opt, old_len, old_max) \
+  ((ret) == 0 ? (*(optp) == (old_opt) && *(lengthp) == (old_len) && *(maxp) == (old_max)) \
+              : ((ret) == HDR(old_opt) + LENV(old_opt) && *(optp) == (old_opt) + (ret) && *(lengthp) == (old_len) - (ret) && \
+                 *(maxp) == (old_max) + DELTA(old_opt)))
+static size_t next_option_safe_contract(coap_opt_t **optp, size_t *length, uint16_t *max_opt)
+__CPROVER_requires(__CPROVER_w_ok(optp, sizeof(*optp)) && __CPROVER_w_ok(length, sizeof(*length)) && __CPROVER_w_ok(max_opt, sizeof(*max_opt)))
+__CPROVER_requires(__CPROVER_r_ok(*optp, *length))
+__CPROVER_assigns(*optp, *length, *max_opt)
+__CPROVER_ensures(POST_NOS_ACCEPT(__CPROVER_return_value, __CPROVER_old(*optp), __CPROVER_old(*length), __CPROVER_old(*max_opt)))
+__CPROVER_ensures(POST_NOS_STEP(__CPROVER_return_value, optp, length, max_opt, __CPROVER_old(*optp), __CPROVER_old(*length), __CPROVER_old(*max_opt)))
+;
+
+/* ---- buffer growth (C04/C18).  G_old_doff as for coap_update_token. */
+#define POST_RESIZE_OK(ret, p, new_size, old_alloc, old_doff) \
+  ((ret) != 1 || ((p)->alloc_size == (new_size) && \
+     ((old_doff) == 0 || (new_size) <= (old_alloc) ? 1 : ((p)->data != NULL && (size_t)((p)->data - (p)->token) == (old_doff))) && \
+     ((new_size) <= (old_alloc) || (p)->actual_token.s == (p)->token + BIAS((p)->actual_token.length))))
+#define POST_RESIZE_REFUSED(ret, p, new_size, old_alloc, old_token, old_data) \
+  ((ret) != 0 || ((new_size) > (old_alloc) && (p)->alloc_size == (old_alloc) && (p)->token == (old_token) && (p)->data == (old_data)))
+int coap_pdu_resize_contract(coap_pdu_t *pdu, size_t new_size)
+__CPROVER_requires(PDU_WF_MEM(pdu) && PDU_WF_SCALAR(pdu) && new_size <= 2 * MAXRX)
+__CPROVER_requires(G_old_doff == (pdu->data == NULL ? 0 : (size_t)(pdu->data - pdu->token)))
+__CPROVER_assigns(pdu->alloc_size, pdu->token, pdu->data, pdu->actual_token.s)
+__CPROVER_frees(pdu_block_freeable(pdu))
+__CPROVER_ensures(__CPROVER_return_value == 0 || __CPROVER_return_value == 1)
+__CPROVER_ensures(__CPROVER_return_value == 1 || (pdu->max_size && new_size > pdu->max_size) || new_size > __CPROVER_old(pdu->alloc_size))
+__CPROVER_ensures(POST_RESIZE_OK(__CPROVER_return_value, pdu, new_size, __CPROVER_old(pdu->alloc_size), G_old_doff))
+__CPROVER_ensures(POST_RESIZE_REFUSED(__CPROVER_return_value, pdu, new_size, __CPROVER_old(pdu->alloc_size), __CPROVER_old(pdu->token), __CPROVER_old(pdu->data)))
+/* the (possibly new) block really has max_hdr_size + alloc_size bytes */
+__CPROVER_ensures(__CPROVER_return_value != 1 || new_size <= __CPROVER_old(pdu->alloc_size) || __CPROVER_w_ok(pdu->token - pdu->max_hdr_size, (size_t)pdu->max_hdr_size + new_size))
+;
+#define POST_CHKRESIZE(ret, p, size, old_alloc) \
+  ((ret) == 1 ? ((p)->alloc_size >= (size) && ((p)->max_size == 0 || (p)->alloc_size <= (p)->max_size) && ((size) > (old_alloc) || (p)->alloc_size == (old_alloc))) \
+              : ((p)->alloc_size == (old_alloc) && (size) > (old_alloc)))
+int coap_pdu_check_resize_contract(coap_pdu_t *pdu, size_t size)
+__CPROVER_requires(PDU_WF_MEM(pdu) && PDU_WF_SCALAR(pdu) && size <= 2 * MAXRX)
+__CPROVER_requires(G_old_doff == (pdu->data == NULL ? 0 : (size_t)(pdu->data - pdu->token)))
+__CPROVER_assigns(pdu->alloc_size, pdu->token, pdu->data, pdu->actual_token.s)
+__CPROVER_frees(pdu_block_freeable(pdu))
+__CPROVER_ensures(__CPROVER_return_value == 0 || __CPROVER_return_value == 1)
+__CPROVER_ensures(POST_CHKRESIZE(__CPROVER_return_value, pdu, size, __CPROVER_old(pdu->alloc_size)))
+__CPROVER_ensures(__CPROVER_return_value != 1 || (G_old_doff == 0 ? pdu->data == NULL : (pdu->data != NULL && (size_t)(pdu->data - pdu->token) == G_old_doff)))
+/* refused only because the maximum PDU size forbids it or the allocator failed (stub may fail) */
+;
+
+/* ---- coap_add_token (C01 P3) */
+#define POST_ADDTOK_OK(ret, p, len) \
+  ((ret) != 1 || ((p)->actual_token.length == (len) && (p)->e_token_length == (len) + BIAS(len) && \
+     (p)->actual_token.s == (p)->token + BIAS(len) && (p)->used_size == (len) + BIAS(len) && (p)->max_opt == 0 && (p)->data == NULL && \
+     (p)->used_size <= (p)->alloc_size && ((p)->max_size == 0 || (p)->alloc_size <= (p)->max_size)))
+int coap_add_token_contract(coap_pdu_t *pdu, size_t len, const uint8_t *data)
+__CPROVER_requires(pdu != NULL && PDU_WF_MEM(pdu) && PDU_WF_SCALAR(pdu) && pdu->data == NULL)
+__CPROVER_requires(len > TOKMAX || __CPROVER_r_ok(data, len))
+__CPROVER_assigns(*pdu, __CPROVER_object_whole(pdu->token))
+__CPROVER_frees(pdu_block_freeable(pdu))
+__CPROVER_ensures(__CPROVER_return_value == 0 || __CPROVER_return_value == 1)
+__CPROVER_ensures(__CPROVER_return_value == 0 || (__CPROVER_old(pdu->used_size) == 0 && len <= TOKMAX))
+__CPROVER_ensures(POST_ADDTOK_OK(__CPROVER_return_value, pdu, len))
+__CPROVER_ensures(POST_UPDTOK_EXT(__CPROVER_return_value, pdu, len))
+__CPROVER_ensures(__CPROVER_return_value == 1 || (pdu->used_size == __CPROVER_old(pdu->used_size) && pdu->e_token_length == __CPROVER_old(pdu->e_token_length)))
+;
+
+/* ---- coap_add_data_after (C01 P3): payload marker + reserved payload space at the end */
+#define POST_ADDDATA(ret, p, len, old_used, old_data) \
+  ((ret) != NULL ? ((old_data) == NULL && (len) > 0 && (ret) == (p)->token + (old_used) + 1 && (p)->data == (ret) && \
+                    (p)->token[old_used] == 0xFF && (p)->used_size == (old_used) + 1 + (len) && (p)->used_size <= (p)->alloc_size) \
+                 : ((p)->used_size == (old_used) && ((old_data) != NULL || (p)->data == NULL)))
+uint8_t *coap_add_data_after_contract(coap_pdu_t *pdu, size_t len)
+__CPROVER_requires(PDU_WF_MEM(pdu) && PDU_WF_SCALAR(pdu) && len <= MAXRX)
+__CPROVER_assigns(*pdu, __CPROVER_object_whole(pdu->token))
+__CPROVER_frees(pdu_block_freeable(pdu))
+__CPROVER_ensures(POST_ADDDATA(__CPROVER_return_value, pdu, len, __CPROVER_old(pdu->used_size), __CPROVER_old(pdu->data)))
+;
 #endif
